@@ -22,6 +22,9 @@ record (site descriptor, partner descriptor); the site atom is the endpoint in t
   terminal rule      an atom that, as growth site, received a partner descriptor listed in terminal_bonds carries no
                      descriptors afterwards ('bonding' absent or empty) and is never a site again; an atom that only
                      grew through non-terminal partners keeps no terminal descriptor.
+  order suffix       "'$A' means '$A1'": the same configuration with every table key and terminal descriptor spelled
+                     with its order digit gives the identical molecule for the same seed (this is how the tables of
+                     the docstring examples, all written without digits, are honoured at all).
   same seed          constructing a sampler with the same seed and sampling again (global `random` state scrambled in
                      between) gives the identical canonical dump (vf.util.canonical_dump); for batches of
                      configurations also in two fresh interpreters with different PYTHONHASHSEED.
@@ -52,18 +55,18 @@ from specs import sampler_spec as sp
 ID = 'C17'
 LEVEL = 'exploration'
 P_TARGETS = []
-BUDGET = {'quick': 32.0, 'thorough': 420.0}
+BUDGET = {'quick': 34.0, 'thorough': 420.0}
 CHUNK = 100
-N_RANDOM = {'quick': 7000, 'thorough': 200000}
-XPROC = {'quick': (6, 25), 'thorough': (40, 40)}      # (batches, configurations per batch)
+N_RANDOM = {'quick': 6000, 'thorough': 150000}
+XPROC = {'quick': (5, 20), 'thorough': (40, 40)}      # (batches, configurations per batch)
 BOUNDS = {
     'quick': {'fragments': '1..4', 'descriptors_per_fragment': '1..4', 'kinds': ['$', '>', '<'], 'labels': ['', 'A', 'B', 'C'],
               'orders': [1, 2, 3], 'scenario_seeds': '0..7', 'systematic_family': 'as C16', 'random_configurations': N_RANDOM['quick'],
-              'random_seeds': '0..15', 'histories_per_configuration': 2, 'cross_process_batches': XPROC['quick'][0],
+              'random_seeds': '0..15', 'histories_per_configuration': '2 (+1 with explicit order digits when the spelling differs)', 'cross_process_batches': XPROC['quick'][0],
               'configurations_per_batch': XPROC['quick'][1], 'hash_seeds': [1, 4242]},
     'thorough': {'fragments': '1..4', 'descriptors_per_fragment': '1..4', 'kinds': ['$', '>', '<'], 'labels': ['', 'A', 'B', 'C'],
                  'orders': [1, 2, 3], 'scenario_seeds': '0..39', 'systematic_family': 'as C16, seeds 0..5',
-                 'random_configurations': N_RANDOM['thorough'], 'random_seeds': '0..99', 'histories_per_configuration': 2,
+                 'random_configurations': N_RANDOM['thorough'], 'random_seeds': '0..99', 'histories_per_configuration': '2 (+1 with explicit order digits when the spelling differs)',
                  'cross_process_batches': XPROC['thorough'][0], 'configurations_per_batch': XPROC['thorough'][1], 'hash_seeds': [1, 4242]},
 }
 EXHAUSTIVE = {'quick': False, 'thorough': False}
@@ -132,6 +135,11 @@ def check_molecule(sampler, mol, cfg, tpls):
     names = [dec.copy_name(f) for f in range(k)]
     if any(n is None or n not in tpls for n in names):
         return None, 'a copy carries no single known fragname'
+    per_new = {}
+    for e in dec.bonds:
+        per_new[e['new']] = per_new.get(e['new'], 0) + 1
+    if len(dec.bonds) != k - 1 or any(per_new.get(f, 0) != 1 for f in range(1, k)):
+        return None, 'copies are not attached by exactly one growth bond each'
     # ---- masses
     given = cfg['masses']
     smass = getattr(sampler, 'fragment_masses', None)
@@ -193,6 +201,19 @@ def check_molecule(sampler, mol, cfg, tpls):
     return out, k
 
 
+def _explicit(cfg):
+    """The configuration with every table key / terminal descriptor spelled with its order digit; None when that
+    changes nothing or when two spellings of one descriptor collide in a table."""
+    pr = _norm_table(cfg['pr'])
+    fr = {g4.norm(k): _norm_table(v) for k, v in cfg['fr'].items()}
+    term = [g4.norm(t) for t in cfg['term']]
+    if (pr, fr, term) == (cfg['pr'], cfg['fr'], cfg['term']):
+        return None
+    if len(pr) != len(cfg['pr']) or len(fr) != len(cfg['fr']) or any(len(fr[g4.norm(k)]) != len(v) for k, v in cfg['fr'].items()):
+        return None
+    return dict(cfg, pr=pr, fr=fr, term=term)
+
+
 def _history(cfg, precondition=None):
     try:
         sampler, mol = g4.run(cfg)
@@ -224,6 +245,16 @@ def check_one(cfg):
                                  '%s seed=%s target=%s: two fresh samplers gave different molecules (%d vs %d nodes)' % (
                                      cfg['text'], cfg['seed'], cfg['target'], len(mol), len(mol2)),
                                  classify(cfg, 'not-reproducible')))
+    # third history: all table keys spelled with their order digit
+    full = _explicit(cfg)
+    if full is not None and mol is not None:
+        sampler3, mol3, exc3 = _history(full)
+        if mol3 is None or canonical_dump(mol3) != canonical_dump(mol):
+            fails.append(Failure('MoleculeSampler.sample', 'order-suffix-spelling',
+                                 '%s seed=%s target=%s: tables %r / %r / %r give %s, the same tables with explicit order digits give %s' % (
+                                     cfg['text'], cfg['seed'], cfg['target'], cfg['pr'], cfg['fr'], cfg['term'],
+                                     'a molecule of %d nodes' % len(mol), exc3 or 'a different molecule (%d nodes)' % len(mol3)),
+                                 classify(cfg, 'order-suffix-spelling')))
     ncopies = 0
     for s, m in ((sampler, mol), (sampler2, mol2)):
         if m is None:
